@@ -24,6 +24,7 @@ def run(ctx, R, tier):
     R.rule("C17-R1", "receive_data: every buffer return is guarded by len(buffer) == size; each recv in the accumulate loop asks for no more than what is missing", floor=3)
     R.rule("C17-R2", "error classification: socket.timeout -> TimeoutError; socket.error -> ConnectionClosedError unless errno in ERRNO_RETRIES (then retry); short read stores partialData", floor=7)
     R.rule("C17-R3", "accumulate/advance pairing in the receive loop; slice-after-send by the returned count in the send loop", floor=4)
+    R.rule("C17-R5", "SocketConnection.recv/send delegate exactly to receive_data/send_data", floor=2)
     R.rule("C17-R4", "ERRNO_RETRIES contains only retryable errno constants", floor=1)
 
     rx = ctx.fn("Pyro5.socketutil.receive_data")
@@ -161,6 +162,17 @@ def run(ctx, R, tier):
             isinstance(atom.comparators[0], ast.Constant) and atom.comparators[0].value is None
     ok = len(sa) == 1 and all(tcfg.guarded(n, lambda e: edge_has_fact(e, blocking)) for n in ctx.node_of(tx, sa[0]))
     R.check(ok, "C17-R3", "send_data|sendall-only-when-blocking", "sendall is used only for sockets in blocking mode", tx.loc(), "sendall is used on a timeout-mode socket (partial sends are lost on timeout)")
+
+    # ---------------------------------------------------------------- R5
+    for mname, target, nargs in (("recv", "Pyro5.socketutil.receive_data", 1), ("send", "Pyro5.socketutil.send_data", 1)):
+        m_ = ctx.fn("Pyro5.socketutil.SocketConnection." + mname)
+        calls = ctx.calls_to(m_, target)
+        ok = len(calls) == 1 and len(calls[0].args) == 2 and unparse(calls[0].args[0]) == "self.sock" and unparse(calls[0].args[1]) == m_.params[1]
+        if ok and mname == "recv":
+            rets = [n for n in walk_no_nested(m_.node) if isinstance(n, ast.Return)]
+            ok = len(rets) == 1 and rets[0].value is calls[0]
+        R.check(ok, "C17-R5", "SocketConnection.%s|delegates-exactly" % mname, "the connection wrapper passes the socket and the size/data through unchanged", m_.loc(),
+                "SocketConnection.%s does not hand exactly its argument to %s (or alters the result)" % (mname, target.rsplit(".", 1)[1]))
 
     # ---------------------------------------------------------------- R4
     m = p.module("Pyro5.socketutil")
